@@ -969,11 +969,7 @@ func C01(t Tier) int {
 	// handed offsets 255, 256, 257 (offset encodings beyond one byte)
 	acc := aolAccs()
 	big := aolSystem(aolVariant{ID: "C01/big", OwnRec: true, Ctl: []string{"NB", "XI"}, Inject: &aolInject{Big: &aolBig{Owner: acc.A, Writer: acc.W, Name: "a", N: 255}}})
-	st, tr := run.Coverage["states"].(int), run.Coverage["transitions"].(int64)
 	RunGraph(run, big, []explore.Bounds{{Depth: 3, V: 1, Deadline: dl}}, 6)
-	run.Coverage["states_big_offset_run"] = run.Coverage["states"]
-	run.Coverage["states"] = st + run.Coverage["states"].(int)
-	run.Coverage["transitions"] = tr + run.Coverage["transitions"].(int64)
 	run.Assumptions = []string{
 		"alphabet: 2 owners x 2 topic names (a, ab: one a byte-prefix of the other), writers W and A, fee payer F, outsider X; record values from a 5-entry menu",
 		"offsets up to 257 are reached through a genesis-injected topic holding 255 records; larger offsets and values outside the alphabet are not explored",
@@ -1018,8 +1014,6 @@ func C13(t Tier) int {
 			d = depth - 1
 		}
 		RunGraph(run, sys, []explore.Bounds{{Depth: d, V: 1, Deadline: dl}}, 6)
-		run.Coverage[fmt.Sprintf("init%d_states", i)] = run.Coverage["states"]
-		run.Coverage[fmt.Sprintf("init%d_transitions", i)] = run.Coverage["transitions"]
 	}
 	run.Assumptions = []string{
 		"initial states: empty; and a genesis with owners of address length 1, 19 (prefix of A), 21 (A plus one byte), 32, 255 and topic names a/ab/abc/70xz",
